@@ -248,8 +248,7 @@ CONSTANTS MaxLen,        \* longest source enumerated
           Ns,            \* bounds n
           Blocks,        \* CUDA block sizes
           CtxSets,       \* context sets used on only_for_context lines
-          IncSets,       \* context sets used on include_file lines
-          IncFiles,      \* subset of FileNames
+          IncFa, IncFb, IncFc,   \* context sets used on include_file lines of file fa / fb / fc ({} = file not used)
           Kinds,         \* subset of {"plain","mem","fun"}: statement kinds enumerated
           Part, NParts   \* partition of the enumeration by the first line (parallel exports)
 
@@ -260,7 +259,8 @@ Alphabet(s) ==
   LET inb == InBlockAtEnd(s) IN
   [k : Kinds] \cup [k : {"only"}, c : CtxSets]
   \cup (IF inb THEN {[k |-> "end"]} ELSE {[k |-> "vec"]})
-  \cup {x \in [k : {"inc"}, f : IncFiles, c : IncSets] : inb => ~HasBlock(x.f)}
+  \cup {x \in [k : {"inc"}, f : {"fa"}, c : IncFa] \cup [k : {"inc"}, f : {"fb"}, c : IncFb] \cup [k : {"inc"}, f : {"fc"}, c : IncFc] :
+          inb => ~HasBlock(x.f)}
 
 (* a fixed order of the alphabet, only to split the enumeration into NParts independent runs *)
 RECURSIVE SetToSeq(_)
